@@ -11,7 +11,7 @@
 (* held}>> (vacuity control; counted by the orchestrator).  The            *)
 (* POSTCONDITION demands that the whole trace was consumed.                *)
 (***************************************************************************)
-EXTENDS Rates
+EXTENDS Macro
 
 Rec == Rec0
 
@@ -35,6 +35,8 @@ Clauses(e) ==
       [] e.ev = "FormatUnit" -> FormatUnitClauses(e)
       [] e.ev = "Serde"   -> SerdeClauses(e)
       [] e.ev = "SI"      -> SIClauses(e)
+      [] e.ev = "Compile" -> AnyCompileClauses(e)
+      [] e.ev = "GenBuild" -> GenBuildClauses(e)
       [] OTHER -> <<Cl("T.unknown_event", TRUE, FALSE)>>
 
 TraceInit == l = 1
